@@ -22,7 +22,7 @@ def get_const(protocol_version):
         (
             CONST_VERSIONS[const_version]
             for const_version in sorted(CONST_VERSIONS, reverse=True)
-            if AwesomeVersion(protocol_version) >= AwesomeVersion(const_version)
+            if not AwesomeVersion(protocol_version) < AwesomeVersion(const_version)
         ),
         "mysensors.const_14",
     )
